@@ -674,6 +674,10 @@ func TestRegress(t *testing.T) {
 		{"stl-missing-dir", fc.Case{Sink: "stl", Renderer: "scripted", N: 1000, Chunk: 1, Path: "missing/a.stl", Fsize: -1, Fault: "missing-dir"}, 60},
 		{"svg-missing-dir", fc.Case{Sink: "svg", Renderer: "scripted", N: 300, Chunk: 1, Path: "missing/a.svg", Fsize: -1, Fault: "missing-dir"}, 60},
 		{"svg-missing-dir-empty", fc.Case{Sink: "svg", Renderer: "scripted", N: 0, Chunk: 1, Path: "missing/b.svg", Fsize: -1, Fault: "missing-dir"}, 60},
+		// fault-free renders at a fine resolution (more than a million cached distances in the octree, a
+		// quadtree of 13 levels): "every render-to-file call returns" is not only about faults
+		{"stl-mco-sphere-340-no-fault", fc.Case{Sink: "stl", Renderer: "mco", Shape: "sphere", Cells: 340, Path: "big.stl", Fsize: -1, Fault: "none"}, 180},
+		{"dxf-msq-circle-4000-no-fault", fc.Case{Sink: "dxf", Renderer: "msq", Shape: "circle", Cells: 4000, Path: "big.dxf", Fsize: -1, Fault: "none"}, 180},
 		{"3mf-fsize0", fc.Case{Sink: "3mf", Renderer: "scripted", N: 300, Chunk: 1, Path: "a.3mf", Fsize: 0, Fault: "fsize:0"}, 60},
 		{"dxf-fsize4096", fc.Case{Sink: "dxf", Renderer: "scripted", N: 300, Chunk: 1, Path: "a.dxf", Fsize: 4096, Fault: "fsize:flush-boundary+-1"}, 60},
 	}
